@@ -569,7 +569,7 @@ func (e *FEnc) indexVal(env *Env, base, iv *Val) (*Val, error) {
 			return nil, fmt.Errorf("indexing slice of unknown element type")
 		}
 		s := e.term(base)
-		p := &Ptr{Root: rElem, Base: fmt.Sprintf("(sl_base %s)", s), Idx: fmt.Sprintf("(+ (sl_off %s) %s)", s, i), Elem: elem}
+		p := &Ptr{Root: rElem, Base: fmt.Sprintf("(sl_base %s)", s), Idx: e.d.slIdx(s, i), Elem: elem}
 		return e.load(env.st, p), nil
 	}
 	if base.Ty != nil {
@@ -641,6 +641,35 @@ func (e *FEnc) evalCall(env *Env, x *Ex) (*Val, error) {
 		d := e.heapGet(env.st, dn, ds)
 		m := e.term(args[1])
 		return e.boolVal(fmt.Sprintf("(and (not (= %s nil_ref)) (select (select %s %s) %s))", m, d, m, e.term(args[0]))), nil
+	case "visited": // visited(m, k): key k has been visited by the (innermost) range loop over map m
+		if err := evalArgs(); err != nil {
+			return nil, err
+		}
+		if len(args) != 2 {
+			return nil, fmt.Errorf("visited(m, k)")
+		}
+		mt := e.term(args[0])
+		best := -1
+		bestDepth := -1
+		for rg, id := range e.rangeGhost {
+			if e.term(e.valOf(rg.X)) != mt {
+				continue
+			}
+			if env.blk != nil && !(rg.Block() == env.blk || rg.Block().Dominates(env.blk)) {
+				continue
+			}
+			if d := e.domDepth[rg.Block()]; d > bestDepth {
+				best, bestDepth = id, d
+			}
+		}
+		if best < 0 || env.st == nil {
+			return nil, fmt.Errorf("visited: no range loop over that map here")
+		}
+		cell, ok := env.st.cells[best]
+		if !ok {
+			return nil, fmt.Errorf("visited: iteration not started on this path")
+		}
+		return e.boolVal(fmt.Sprintf("(select %s %s)", cell.T, e.term(args[1]))), nil
 	case "ite":
 		if len(x.Args) != 3 {
 			return nil, fmt.Errorf("ite arity")
@@ -776,6 +805,11 @@ func (e *FEnc) evalCall(env *Env, x *Ex) (*Val, error) {
 	}
 	// pure Go function with a contract (e.g. s3err.GetAPIError, strings.Split)
 	if fn := e.eng.lookupPure(x.Name, env.pkg); fn != nil {
+		if e.eng.isRepoFn(fn) {
+			for i := range args {
+				args[i] = e.pureArg(env.st, args[i])
+			}
+		}
 		res := fn.Signature.Results()
 		mk := func(i int) *Val {
 			ty := res.At(i).Type()
@@ -858,6 +892,12 @@ func (e *FEnc) evalMethod(env *Env, recv *Val, name string, args []*Val) (*Val, 
 	}
 	if fc == nil || !fc.Pure {
 		return nil, fmt.Errorf("method %s is not declared pure", name)
+	}
+	if fnv := e.eng.prog.FuncValue(m); fnv != nil && e.eng.isRepoFn(fnv) {
+		recv = e.pureArg(env.st, recv)
+		for i := range args {
+			args[i] = e.pureArg(env.st, args[i])
+		}
 	}
 	all := append([]*Val{recv}, args...)
 	// omitted variadic argument = nil slice
